@@ -299,6 +299,48 @@ pub fn run_c03(out: &mut Out, seed: u64, thorough: bool) {
         out.emit(&format!("spec.parse {} {}", hexs(t), e), &rm);
         out.count("directed-accept");
     }
+    // label-count sweep: N definitions made of labels, .EQU names and re-definitions (same spelling,
+    // other letter case, .EQU of an existing label): accepted iff N <= 40, whatever the number of distinct names
+    for total in [1usize, 2, 39, 40, 41, 42, 45, 60] {
+        for dups in [0usize, 1, 2, 7, 20] {
+            if dups >= total {
+                continue;
+            }
+            for style in 0..4 {
+                let distinct = total - dups;
+                let mut lines: Vec<String> = vec![];
+                for i in 0..distinct {
+                    if (style == 1 || style == 3) && i % 3 == 1 {
+                        lines.push(format!(".EQU n{} {}", i, i));
+                    } else {
+                        lines.push(format!("n{}:", i));
+                    }
+                }
+                for d in 0..dups {
+                    let k = (d * 7 + rng.below(distinct as u64) as usize) % distinct;
+                    lines.push(match style {
+                        0 => format!("n{}:", k),
+                        1 => format!("N{}:", k),
+                        2 => format!(".EQU n{} 3", k),
+                        _ => format!(".EQU N{} 16", k),
+                    });
+                }
+                // interleave deterministically
+                let cut = rng.below(lines.len() as u64) as usize;
+                lines.rotate_left(cut);
+                let t = format!("#! mrasm\n{}\n JR n0", lines.join("\n"));
+                let rm = parse_str(&t);
+                out.emit(&format!("parse {}", hexs(&t)), &rm);
+                let verdict = if rm.starts_with("ok") { "accepted" } else { "reject" };
+                if total > 40 {
+                    out.emit(&format!("spec.reject {}", hexs(&t)), verdict);
+                } else {
+                    out.emit(&format!("spec.accept {}", hexs(&t)), verdict);
+                }
+                out.count("label-count-sweep");
+            }
+        }
+    }
     // raw strings: never a panic, and the model agrees on accept/reject
     let m = if thorough { 40000 } else { 4000 };
     for _ in 0..m {
